@@ -1757,6 +1757,11 @@ def lt(left: Any, right: Any) -> bool:
     # E.g. list and pg.List.
     if tol != tor:
       return tol < tor
+    if not tol.isdigit():
+      # Distinct classes that share one qualified name (e.g. classes of the
+      # same name from two modules or from a class factory) are ordered by
+      # module, then by identity.
+      return (_class_order(left) < _class_order(right))
 
   # Most symbolic nodes are leaf, which are primitive types, therefore
   # we detect such types to make `lt` to run faster.
@@ -1768,7 +1773,9 @@ def lt(left: Any, right: Any) -> bool:
   elif isinstance(left, (list, tuple)):
     min_len = min(len(left), len(right))
     for i in range(min_len):
-      l, r = left[i], right[i]
+      # NOTE: symbolic members (e.g. references) are compared, as `eq` does,
+      # not the values they evaluate to.
+      l, r = _sym_member(left, i), _sym_member(right, i)
       if not eq(l, r):
         return lt(l, r)
     # `left` and `right` are equal so far, so `left` is less than `right`
@@ -1783,8 +1790,9 @@ def lt(left: Any, right: Any) -> bool:
     for i in range(min_len):
       kl, kr = lkeys[i], rkeys[i]
       if kl == kr:
-        if not eq(left[kl], right[kr]):
-          return lt(left[kl], right[kr])
+        l, r = _sym_member(left, kl), _sym_member(right, kr)
+        if not eq(l, r):
+          return lt(l, r)
       else:
         return lt(kl, kr)
     # `left` and `right` are equal so far, so `left is less than `right`
@@ -1793,6 +1801,13 @@ def lt(left: Any, right: Any) -> bool:
   elif hasattr(left, 'sym_lt'):
     return left.sym_lt(right)
   return left < right
+
+
+def _sym_member(container: Any, key: Union[str, int]) -> Any:
+  """Returns the symbolic member of a container (without evaluating it)."""
+  if isinstance(container, Symbolic):
+    return container.sym_getattr(key)
+  return container[key]
 
 
 def _sorted_keys(value: Dict[Any, Any]) -> List[Any]:
@@ -1816,6 +1831,12 @@ def gt(left: Any, right: Any) -> bool:
     True if the left value is symbolically greater than the right value.
   """
   return lt(right, left)   # pylint: disable=arguments-out-of-order
+
+
+def _class_order(value: Any) -> Tuple[str, int]:
+  """Returns the ordering key among classes with the same qualified name."""
+  cls = type(value)
+  return (cls.__module__, id(cls))
 
 
 def _type_order(value: Any) -> str:
